@@ -189,6 +189,8 @@ type iterState struct {
 	mref  *Term
 	mtype *types.Map
 	seen  *Term // maps: Array Int Bool of keys already produced
+	sref  *Term // strsym: the string
+	posT  *Term // strsym: current byte position
 }
 
 type State struct {
